@@ -1,5 +1,6 @@
 import TuModel.Drive.TextD
 import TuModel.Drive.EditD
+import TuModel.Drive.MatchD
 open Tu.Drive
 
 def handle (line : String) : String :=
@@ -9,7 +10,7 @@ def handle (line : String) : String :=
     match rest.mapM String.toNat? with
     | none => "bad-request"
     | some args =>
-      match (textD op args).orElse (fun _ => editD op args) with
+      match ((textD op args).orElse (fun _ => editD op args)).orElse (fun _ => matchD op args) with
       | some r => r
       | none => "unknown-op"
 
